@@ -103,7 +103,7 @@ fn class(r: &Out<Vec<u8>>) -> &'static str {
     }
 }
 
-fn gen_with_signing_subkey(seed: u64, v6: bool) -> SignedSecretKey {
+pub fn gen_with_signing_subkey(seed: u64, v6: bool) -> SignedSecretKey {
     let version = if v6 { KeyVersion::V6 } else { KeyVersion::V4 };
     let mut sk = SubkeyParamsBuilder::default();
     sk.version(version).key_type(if v6 { pgp::composed::KeyType::Ed25519 } else { pgp::composed::KeyType::Ed25519Legacy }).can_sign(true);
